@@ -373,7 +373,7 @@ func init() {
 					r.Reached(fmt.Sprintf("reached/stall/entry=%s/tls=%s", e, t))
 				}
 			}
-			r.Reached("reached/stall-inside-handshake", "reached/write-side-stall", "reached/caller-context-with-deadline", "reached/after-idle-hour", "reached/stall-on-the-fallback-connection", "follow/Reset/blocks=1", "follow/Send/blocks=1", "follow/Close/blocks=0")
+			r.Reached("reached/stall-inside-handshake", "reached/write-side-stall", "reached/caller-context-with-deadline", "reached/after-idle-hour", "reached/stall-on-the-fallback-connection", "follow/Reset/blocks=0", "follow/Send/blocks=0", "follow/Close/blocks=0")
 		},
 		Replay: func(r *vf.Run, kase json.RawMessage) {
 			var k c17Case
